@@ -105,6 +105,21 @@ PROPS = {
             "note": "Trusted: the acceptance table (written from the specification's GetDifferenceSettings / round / toString option rules) and refmodel::round/dur.",
         },
     },
+    "C11": {
+        "builds": ["chk"],
+        "rule": ("values of all eight types from hostile generators (years -271821, -1, 0, 1, 9999, 10000, 275760 via the C04 date generator; sub-second parts of every length 0-9; offsets with non-zero minutes, "
+                 "negative offsets and -00:01; durations with only sub-second / only date / huge fields; 17 calendars) x display options that keep the information (calendarName x offset x timeZoneName x "
+                 "fractional digits >= the value's own): text must equal an independent canonical writer byte for byte, parse back to the same value, and print identically again; plus every variant "
+                 "of the ten option enums, month codes M01..M13/M01L..M12L, every whole-minute UTC offset, zone and calendar identifiers (mixed case). non-trivial = the value is not the type's zero "
+                 "value; distinct by value fingerprint; per-feature counters (extended year, fraction length, negative offset ...) must all be > 0"),
+        "assumptions": ["zoned values over fixed offsets and the named zone UTC served by the harness provider (bundled tz data is C15's subject)",
+                        "a ZonedDateTime whose wall-clock date is more than 1e8 days from the epoch (instant within 24 h of a limit) is not parsed back: the specification's CheckISODaysRange refuses that text"],
+        "manifest": {
+            "technique": "runtime monitoring: independent canonical writer + parse-back identity over generated values of every type and every enum variant",
+            "text": "Each formatted value is compared byte for byte with a clean-room canonical writer (year width, minimal/exact fraction digits, +-HH:MM offsets, annotation order and critical flags, duration components) and must parse back to an equal value and print identically again; enum, month-code, offset, zone and calendar names are enumerated completely. Values are generated, concentrating on year-format boundaries, fraction lengths, odd offsets and extreme durations.",
+            "note": "Trusted: the canonical writer in mon/c11.rs (about 100 lines) and the harness UTC provider.",
+        },
+    },
     "C17": {
         "builds": ["chk", "rel"],
         "rule": ("receivers (C04 hostile dates, random times) x every subset of supplied fields (PlainDate/PlainYearMonth: year, month, monthCode, day = 16 subsets; PlainTime 64 subsets; "
